@@ -113,6 +113,13 @@ def run_case(col, r, idx):
     if col.tier == 'thorough' and idx % 200 == 0:
         n = r.choice([50, 150, 400])
     text = gen.document(r, prof, n)
+    if idx % 7 == 5:
+        # an odd character (byte order mark, zero-width / no-break space, form feed, NUL, line separators, lone CR) at the start, at
+        # the end or somewhere in the text: usually rejected; when parse() accepts it, it has to come back out
+        ch = r.choice(['\ufeff', '\u200b', '\xa0', '\x0c', '\x0b', '\x00', '\u2028', '\x85', '\r', '\u3000'])
+        k = r.choice([0, 0, 0, len(text), r.randint(0, len(text))])
+        text = text[:k] + ch + text[k:]
+        col.count('texts_with_odd_character')
     _layout_counters(col, text)
     col.count('documents')
     first = None
